@@ -27,7 +27,8 @@ func (b *Base85Encoder) Code() byte {
 func (b *Base85Encoder) Encode(data []byte) []byte {
 	l := ascii85.MaxEncodedLen(len(data))
 	dst := make([]byte, l)
-	ascii85.Encode(dst, data)
+	n := ascii85.Encode(dst, data)
+	dst = dst[:n]
 	for k, b := range dst {
 		if b == '.' {
 			dst[k] = 'v'
@@ -53,7 +54,9 @@ func (b *Base85Encoder) Decode(data []byte) ([]byte, error) {
 		}
 	}
 
-	dst := make([]byte, len(source))
+	// every input character can yield up to 4 bytes ('z'), and ascii85.Decode stops
+	// silently as soon as fewer than 4 bytes of room are left
+	dst := make([]byte, 4*len(source)+4)
 	ndst, _, err := ascii85.Decode(dst, source, true)
 	if err != nil {
 		err = errors.WithStack(err)
